@@ -23,6 +23,8 @@ CAUGHT = {
  'C16-remote-target-fastpath': ('./check C16 --tier quick', 'bookmarks-*-rconflictd/rconflictn and tags-*: "View.remote_views reads back identical" sat. MISSED by the check as it stood: its only conflict shape was add/add with an absent base; the change/delete and delete/change shapes (one absent add) were added. Also needed Itertools::at_most_one and iteration over &Option (exit 2 before)'),
  'C19-roots-window': ('./check C19 --tier quick', 'roots-n3: "position is yielded iff it is in the denoted set" sat for Roots({0,2}) on a 3-position graph with two roots (solver verdict over the private engine)'),
  'C39-lookahead-min-position': ('./check C39 --tier quick', 'graph-n4-all / graph-n4-skip: exactness of the edge set and "indirect edge: reached only through commits outside the shown set" sat for shown {0,1,3} with hidden single-parent commit 2 (solver verdict)'),
+ 'C18-remove-dup-once': ('./check C18 --tier quick', 'common-n2-k3 (argument lists of up to 3 positions with repetition, added after the seed): "common_ancestors_pos result is strictly descending" sat for ([1,0,0],[0,0,0]) -> [0,0]. MISSED before: the argument lists had at most 2 entries, so no position was ever queued three times on both sides; the seed demo uses two octopus merges over 7 commits, the added job reaches the same queue state through repeated arguments'),
+ 'C19-reachable-break': ('./check C19 --tier quick', 'reachable-n3: "position is yielded iff it is in the denoted set" sat for Reachable(sources=[2], domain=[1,2]) with parents of 2 listed as [0,1] (solver verdict)'),
  'C44-exact-fit-zero-width': ('./check C44 --tier quick', '"text that already fits is returned unchanged" sat; reproduced natively'),
 }
 base = set(l.strip() for l in open('/tmp/baseline_names.txt')) if os.path.exists('/tmp/baseline_names.txt') else None
